@@ -36,7 +36,7 @@ def star_parts(wd, tier):
                 evs.append(sp[len(evs) % len(sp)])
         citems.append(dict(it, evs=evs))
     for mode, its, name in (("star", items, "idstar"), ("cstar", citems, "idcstar")):
-        groups = cf.run_y0(wd, mode, its, "c06" + mode)
+        groups = cf.run_y0(wd, mode, its, "c06" + mode, history=False)
         groups = [dict(gr, recs=[dict(r, k="svocab") for r in gr["recs"]]) for gr in groups]
         vs, st, by_id = ic.judge(wd, groups, seeds=(1,), tag="tv" + mode)
         if mode == "star":
